@@ -163,3 +163,33 @@ func vEval(env *Zlisp, form Sexp) (res Sexp, err error, panicked bool) {
 	res, err = env.EvalExpressions([]Sexp{form})
 	return
 }
+
+// vCall calls the builtin bound to name with args, the way the VM would
+// (a Go panic inside the builtin becomes an error, as CallUserFunction's
+// recover makes it).
+func vCall(env *Zlisp, name string, args ...Sexp) (res Sexp, err error) {
+	obj, found := env.FindObject(name)
+	if !found {
+		return SexpNull, fmt.Errorf("verif: %s not bound", name)
+	}
+	f, isF := obj.(*SexpFunction)
+	if !isF || !f.user {
+		return SexpNull, fmt.Errorf("verif: %s is not a builtin", name)
+	}
+	defer func() {
+		if r := recover(); r != nil {
+			switch r.(type) {
+			case vAssumeFailed, vDoneSignal:
+				panic(r)
+			}
+			res, err = SexpNull, fmt.Errorf("verif: builtin %s panicked", name)
+		}
+	}()
+	return f.userfun(env, name, args)
+}
+
+// vFormatOpaque(true): from here on, decimal/float formatting of a
+// *symbolic* number (strconv.Itoa/FormatInt/FormatFloat...) yields a fixed
+// placeholder instead of forking on the number of digits.  Used by harnesses
+// whose assertions never depend on message text.  Natively a no-op.
+func vFormatOpaque(on bool) {}
